@@ -182,6 +182,14 @@ func verifNote(s string)                   {}
 // harness exercises a real connection instead).
 func verifWSReadLimit(conn any) int64 { return 0 }
 
+// verifDialPlan plans the outcome of the client's network dial in the executor (fails for the first n calls, then
+// yields sock). Natively the dial is real: harnesses point the client at an unreachable address, which reproduces the
+// all-attempts-fail patterns only.
+func verifDialPlan(n int, sock any) {}
+
+// verifDialCalls is the number of dial attempts made so far (executor only).
+func verifDialCalls() int { return -1 }
+
 // verifLastMarshal returns the value most recently handed to encoding/json.Marshal (executor only: there Marshal is an
 // opaque stub; natively harnesses inspect the real output instead).
 func verifLastMarshal() any { return nil }
